@@ -68,6 +68,9 @@ THEOREMS = [
     "Nix.C08.C08_region_multi_off_band",
     "Nix.C08.C08_axis_on_samples",
     "Nix.C08.C08_axis_full_counterexample",
+    "Nix.C08.C08_equal_coordinates",
+    "Nix.C08.C08_point_on_ticks",
+    "Nix.C08.C08_region_equal_coordinates",
 ]
 ASSUMPTIONS = [
     "floats are modelled as exact rationals (DESIGN section 5): the unit factor is the exact power of ten, positions "
@@ -1245,7 +1248,10 @@ def correspondence(ctx):
     idx = sorted(ctx.rng.sample(range(len(cases)), min(6, len(cases))))
     samples = [{"case": cases[k], "model": mouts[k]} for k in idx]
     return {"evaluations": compared, "distinct_nontrivial": len(seen),
-            "rule": "corpus + seeded scenarios: an array of rank 1-3 with a generated mix of sampled (offset, fractional "
+            "rule": "fixed repeated-tick list (runs of 2-3 equal ticks at the start / inside / at the end of an irregular "
+                    "axis, points and region ends / starts exactly on the repeated value, both stop rules, Tag / "
+                    "MultiTag, rank 1-2), corpus + seeded scenarios (30% of the irregular axes carry a forced run, "
+                    "60% of their regions sit on it): an array of rank 1-3 with a generated mix of sampled (offset, fractional "
                     "interval), range (irregular ticks, repeats, more/fewer ticks than samples) and set (labels = / != "
                     "extent, none) descriptors; regions anchored on, between, a hair beside, before and after the "
                     "samples, extents none / 0 / spanning / fractional / beyond the data / tiny / negative; position "
@@ -1721,7 +1727,10 @@ MANIFEST = {
                   "The tolerance hypothesis is given in checkable form (OffBandAt: each end point, measured in samples, "
                   "is an integer or outside the band of its two neighbours, up to 10^11 samples) and proved sufficient; "
                   "end points on sample coordinates always meet it. An extent of zeros equals no extent; no position = "
-                  "whole array; fewer units than positions = refused. Multi-tag row selection and 1-D -> 2-D promotion, "
+                  "whole array; fewer units than positions = refused. Samples with the same coordinate (runs of equal ticks "
+                  "on an irregular axis) are taken all or none, per axis and in the valid result of Tag.tagged_data; a "
+                  "point (no / zero extent) on an irregular axis yields exactly the ticks equal to the scaled position, "
+                  "None iff there is none, never an error. Multi-tag row selection and 1-D -> 2-D promotion, "
                   "feature data per link type (tagged / indexed / untagged) for Tag and MultiTag, refusal classes; a "
                   "reference / feature addressed by index (negative from the end), id, name, data id or data name is "
                   "the one found by the modelled lookup, and the region / link-type theorems apply to it.",
